@@ -79,8 +79,14 @@ class CNFizer(DagWalker):
                 elif not lit.is_false():
                     # Prune FALSE literals
                     simp.append(lit)
-            if simp:
-                res.append(frozenset(simp))
+            if simp is None:
+                # The clause is trivially TRUE
+                continue
+            if len(simp) == 0:
+                # All the literals of the clause have been pruned: the
+                # clause is FALSE once the top-level literal is asserted
+                return CNFizer.FALSE_CNF
+            res.append(frozenset(simp))
         return frozenset(res)
 
     def convert_as_formula(self, formula):
